@@ -3,6 +3,13 @@
 API-level part (SPEC+O): Clipper64::Execute with open subjects is compared with the exact specification oracle
 extracted from coq/model/OpenClipSpec.v on generated general-position inputs, all 4 clip types x 4 fill rules,
 paths and polytree execution, default and CLIPPER2_HI_PRECISION builds, 7 coordinate regimes.
+Hypothesis (the quantifier "open polylines together with closed subject and clip paths in general position"): the Coq
+predicate general_position_C05 - general position of the WHOLE input as the property set defines the term (C01): every
+input vertex and every proper crossing of two input edges, open or closed, is >= 3 units from every input edge it does
+not lie on by construction (no touching, no overlapping collinear edges, no three edges through one point).  Open
+polylines that fold back on themselves or close up (overlapping collinear segments, first = last) are therefore outside
+the quantifier; a minority of such inputs is still generated and evaluated, disagreements there are recorded in the
+evidence (coverage.outside_quantifier) and never reported as violations.  Proper self-crossings are inside.
 Failure modes (classifier keys):
   crash.open-boolop             the operation crashed, hung or threw
   execute-returned-false        Execute returned false
@@ -13,14 +20,14 @@ Failure modes (classifier keys):
   open.length                   |solution length - exact kept length| > 3 units per cut
   open.closed-solution-changed  adding the open subjects changed the REGION of the closed solution
   open.tree-vs-paths            polytree execution returned different open paths than paths execution
-Geometric keys (the first five) are refined by predicates on the failing input:
-  open.horz-spike               any of the five on an input whose open subject has two consecutive horizontal segments of
-                                opposite direction (a horizontal 180-degree spike)
-  ...+open-self-touch           the open polylines touch themselves otherwise (a vertex within 3 units of a segment it is
-                                not an end of): allowed by the hypothesis, but reported under its own key
-  ...@beyond-2^53               some coordinate is >= 2^53 (not representable in binary64) and the failure persists with
-                                tolerances widened by the binary64 resolution
-  open.cut-inexact@beyond-2^53  some coordinate is >= 2^53 and the failure disappears with the widened tolerances"""
+The five geometric keys are refined when some input coordinate is >= 2^53 in magnitude (from there on binary64, in which
+the engine computes every cut point, no longer represents all integers, so a cut cannot be placed within 1.5 units):
+  open.cut-inexact@beyond-2^53  the failure disappears when the tolerances are widened by the forward rounding-error bound
+                                of the engine's crossing formula for this very input (gen/openpaths.py rounding_bound;
+                                ~2^-51 * extent * condition number of the worst crossing): every deviation is one
+                                that binary64 rounding of a cut point explains
+  <key>@beyond-2^53             the failure persists with the widened tolerances: NOT explained by rounding
+"""
 import glob, json, os, sys
 import vf
 sys.path.insert(0, os.path.join(vf.VERIF, 'gen'))
@@ -46,7 +53,7 @@ META = dict(
 CT = {1: 'Intersection', 2: 'Union', 3: 'Difference', 4: 'Xor'}
 FR = {0: 'EvenOdd', 1: 'NonZero', 2: 'Positive', 3: 'Negative'}
 ALL_COMBOS = [(ct, fr) for ct in CT for fr in FR]
-PRIORITY = ['crash.open-boolop', 'execute-returned-false', 'open.horz-spike', 'open.cut-inexact', 'open.vertex-off-subject', 'open.segment-off-subject', 'open.piece-extra',
+PRIORITY = ['crash.open-boolop', 'execute-returned-false', 'open.cut-inexact', 'open.vertex-off-subject', 'open.segment-off-subject', 'open.piece-extra',
             'open.piece-missing', 'open.length', 'open.tree-vs-paths', 'open.closed-solution-changed']
 
 
@@ -94,23 +101,19 @@ def parse_report(s):
 
 GEO = ('open.vertex-off-subject', 'open.segment-off-subject', 'open.piece-extra', 'open.piece-missing', 'open.length')
 BEYOND = '@beyond-2^53'
+MAX_COORD = (2 ** 63 - 1) >> 2      # clipper.core.h MAX_COORD: the coordinate domain of the library
 
 
 def beyond53(case):
-    """coordinates that binary64 cannot represent exactly: the engine computes cut points in doubles"""
+    """some coordinate is not below 2^53: binary64 (in which the engine computes every cut point) has spacing >= 2 there"""
     return polys.maxabs([case['S'], case['C'], case['O']]) >= 2 ** 53
 
 
 def relaxed_tols(case):
-    """tolerances widened by the binary64 resolution at the case's coordinate magnitude (classification only)"""
-    e = -(-polys.maxabs([case['S'], case['C'], case['O']]) // 2 ** 50)
-    return (3 + e, 2, 3 + e)
-
-
-def input_suffix(case, oself):
-    """classifier suffix for inputs that are in general position as required by the check but whose open polylines touch
-    themselves (not excluded by the hypothesis, reported separately)"""
-    return '' if oself else '+open-self-touch'
+    """the property's tolerances widened by what binary64 rounding of the cut points of this input can explain
+    (classification only: a failure beyond 2^53 is a violation either way, this decides its key)"""
+    D = openpaths.rounding_bound(case['S'], case['C'], case['O'])
+    return (3 + 2 * D, 2, 3 + 2 * D)
 
 
 def open_line(tols, c, sols):
@@ -161,13 +164,14 @@ def evaluate(ctx, exes, oracle, cases, combos_of=None, count=True):
     res, fails = vf.par_lines(oracle, ol, chunk=1, timeout=1500)
     if fails:
         raise vf.Infra('openclip oracle failed: %s' % str(fails[0][2] or fails[0][3])[:600])
-    stats = dict(gp_rejected=0, inconsistent=0, nontrivial=set(), accepted=[], self_touch=0, skipped_after_crashes=0)
+    stats = dict(gp_rejected=0, inconsistent=0, nontrivial=set(), accepted=[], outside_cases=0, outside_runs=0, outside_disagree={}, outside_example=None,
+                 skipped_after_crashes=0)
     recheck = []     # (failure dict) geometric failures on coordinates beyond 2^53, to be classified with relaxed tolerances
     for ci, (c, line) in enumerate(zip(cases, res)):
         if line.startswith('ERR'):
             raise vf.Infra('openclip oracle error: %s' % line[:300])
-        if line.strip() == 'gp=0':
-            stats['gp_rejected'] += 1
+        if line.strip() == 'gp=0' or polys.maxabs([c['S'], c['C'], c['O']]) > MAX_COORD:
+            stats['gp_rejected'] += 1      # not in general position, or outside the coordinate domain of the library
             continue
         parts = line.split(' | ')
         head = dict(kv.split('=') for kv in parts[0].split())
@@ -175,12 +179,13 @@ def evaluate(ctx, exes, oracle, cases, combos_of=None, count=True):
             # the winding number is not constant inside a piece: the specification would be ambiguous; the case is not used
             stats['inconsistent'] += 1
             continue
-        stats['accepted'].append(ci)
-        sfx = input_suffix(c, head.get('oself', '1') == '1')
-        if sfx:
-            stats['self_touch'] += 1
+        outside = head.get('oself', '1') != '1'      # open polylines not in general position: outside the quantifier
+        if outside:
+            stats['outside_cases'] += 1
+            label = 'horz-spike' if openpaths.horz_spike(c['O']) else 'other'
+        else:
+            stats['accepted'].append(ci)
         big = beyond53(c)
-        hspike = openpaths.horz_spike(c['O'])
         reports = iter(parts[1:])
         for r in per_case[ci]:
             base = dict(S=c['S'], C=c['C'], O=c['O'], ct=r['ct'], fr=r['fr'], pc=r['pc'], rs=r['rs'], build=r['b'], regime=c.get('regime', '?'))
@@ -198,9 +203,17 @@ def evaluate(ctx, exes, oracle, cases, combos_of=None, count=True):
                               % (tag, bad[0][0], bad[0][1][:200]), dict(run=bad[0][0])))
                 if r['A'] is not None:
                     next(reports)
-                fails_out += [dict(key=k, ci=ci, what=w, replay=dict(base, **x)) for k, w, x in found]
+                fails_out += [dict(key=k, ci=ci, what=w, replay=dict(base, **x)) for k, w, x in found]      # a crash is a crash on any input
                 continue
             rep = parse_report(next(reports))
+            if outside:
+                # not an instance of the property: observed and recorded, never a violation
+                stats['outside_runs'] += 1
+                if not report_clean(rep) and not big:
+                    stats['outside_disagree'][label] = stats['outside_disagree'].get(label, 0) + 1
+                    if stats['outside_example'] is None or (label == 'horz-spike' and stats['outside_example']['class'] != 'horz-spike'):
+                        stats['outside_example'] = dict(S=c['S'], C=c['C'], O=c['O'], ct=CT[r['ct']], fr=FR[r['fr']], solution=r['A']['open'], **{'class': label})
+                continue
             if count:
                 ctx.count('evaluations')
                 ctx.count('harness_runs', 4)
@@ -212,21 +225,21 @@ def evaluate(ctx, exes, oracle, cases, combos_of=None, count=True):
                     found.append(('execute-returned-false', '%s: Execute returned false (%s run)' % (tag, k), dict(run=k)))
             A = r['A']['open']
             if rep['V'][0]:
-                found.append(('open.vertex-off-subject' + sfx, '%s: %d solution vertices farther than 1.5 from every open subject segment, e.g. %s'
+                found.append(('open.vertex-off-subject', '%s: %d solution vertices farther than 1.5 from every open subject segment, e.g. %s'
                               % (tag, rep['V'][0], tuple(rep['V'][1])), dict(vertex=rep['V'][1], solution=A)))
             if rep['S'][0]:
-                found.append(('open.segment-off-subject' + sfx, '%s: %d solution segments with no single subject segment within 1.5 of both ends, e.g. %s'
+                found.append(('open.segment-off-subject', '%s: %d solution segments with no single subject segment within 1.5 of both ends, e.g. %s'
                               % (tag, rep['S'][0], rep['S'][1]), dict(segment=rep['S'][1], solution=A)))
             if rep['E'][0]:
-                found.append(('open.piece-extra' + sfx, '%s: %d solution segments over a dropped part of the subject (beyond 3 units of a cut), e.g. %s'
+                found.append(('open.piece-extra', '%s: %d solution segments over a dropped part of the subject (beyond 3 units of a cut), e.g. %s'
                               % (tag, rep['E'][0], rep['E'][1]), dict(segment=rep['E'][1], solution=A)))
             if rep['M'][0]:
                 m = rep['M'][1]
-                found.append(('open.piece-missing' + sfx, '%s: %d kept runs not covered by the solution, e.g. parameters [%.6f, %.6f] of subject segment %s'
+                found.append(('open.piece-missing', '%s: %d kept runs not covered by the solution, e.g. parameters [%.6f, %.6f] of subject segment %s'
                               % (tag, rep['M'][0], m[4], m[5], m[:4]), dict(subject_segment=m[:4], run=m[4:], solution=A)))
             if not rep['len_ok']:
                 L = rep['len']
-                found.append(('open.length' + sfx, '%s: solution length %.3f, exact kept length %.3f, %d cuts (allowed difference %d)'
+                found.append(('open.length', '%s: solution length %.3f, exact kept length %.3f, %d cuts (allowed difference %d)'
                               % (tag, len_units(L[0]), len_units(L[2]), L[4], 3 * L[4]), dict(solution=A, lengths=L)))
             if sorted(map(tuple, map(lambda p: tuple(map(tuple, p)), A))) != sorted(map(tuple, map(lambda p: tuple(map(tuple, p)), r['T']['open']))):
                 found.append(('open.tree-vs-paths', '%s: polytree execution returned different open paths (%d) than paths execution (%d)'
@@ -243,12 +256,8 @@ def evaluate(ctx, exes, oracle, cases, combos_of=None, count=True):
                         ctx.count('closed_paths_differ_but_region_equal')
             for k, w, x in found:
                 f = dict(key=k, ci=ci, what=w, replay=dict(base, **x))
-                if k.split('+')[0] in GEO:
-                    if hspike:
-                        f['key'] = 'open.horz-spike'      # all geometric modes of this input class under one key
-                        f['what'] += '  [the open subject has two consecutive horizontal segments of opposite direction]'
-                    elif big:
-                        recheck.append(f)
+                if k in GEO and big:
+                    recheck.append(f)
                 fails_out.append(f)
     # classification of geometric failures beyond 2^53: explained by the binary64 resolution of the cut points?
     if recheck:
@@ -265,9 +274,11 @@ def evaluate(ctx, exes, oracle, cases, combos_of=None, count=True):
             rep = parse_report(line.split(' | ')[1])
             for f in groups[ident]:
                 if report_clean(rep):
-                    f['what'] += '  [passes with tolerances widened to %s/%s and %s units: explained by binary64 rounding of the cut points]' % relaxed_tols(cases[ident[0]])
+                    f['what'] += ('  [coordinates >= 2^53; passes with tolerances widened to %s/%s and %s units, the forward rounding-error bound of the '
+                                  'binary64 crossing formula for this input: explained by rounding of the cut points]' % relaxed_tols(cases[ident[0]]))
                     f['key'] = 'open.cut-inexact' + BEYOND
                 else:
+                    f['what'] += '  [coordinates >= 2^53; persists with tolerances widened to %s/%s and %s units: NOT explained by rounding]' % relaxed_tols(cases[ident[0]])
                     f['key'] += BEYOND
     return fails_out, stats
 
@@ -380,11 +391,21 @@ def gen_cases(ctx, n):
         S, C, O, info = openpaths.gen_open_case(rng)
         reg = polys.REGIMES[len(cases) % len(polys.REGIMES)] if not rng.chance(1, 4) else polys.REGIMES[0]
         S2, C2, tf = polys.apply_regime(rng, S, C, reg)
-        cases.append(dict(S=S2, C=C2, O=openpaths.scale_open(O, tf), regime=reg[0], k=tf[0], info=info))
+        O2 = openpaths.scale_open(O, tf)
+        if polys.maxabs([S2, C2, O2]) > MAX_COORD:
+            # the library's coordinate domain is |x|,|y| <= MAX_COORD = INT64_MAX >> 2 (clipper.core.h): scale only, do not translate
+            tf = (tf[0], 0, 0)
+            S2, C2, O2 = polys.scale_translate(S, tf[0], 0, 0), polys.scale_translate(C, tf[0], 0, 0), openpaths.scale_open(O, tf)
+        if polys.maxabs([S2, C2, O2]) > MAX_COORD:
+            continue
+        cases.append(dict(S=S2, C=C2, O=O2, regime=reg[0], k=tf[0], info=info))
     return cases
 
 
 def run(ctx):
+    # vf.Rng(seed) is splitmix64 started at seed * increment: the stream of seed n+1 is the stream of seed n advanced by one
+    # draw, so consecutive seeds can generate the very same cases.  Forking (the new state is a hashed OUTPUT) decorrelates them.
+    ctx.rng = ctx.rng.fork(505)
     pr = vf.coq_props(ctx, 'C05')
     exes = {}
     try:
@@ -408,7 +429,11 @@ def run(ctx):
     ctx.cov['cases_with_nonconstant_piece_rejected'] = stats.get('inconsistent', 0)
     ctx.cov['cases_accepted'] = len(stats.get('accepted', []))
     ctx.cov['rule_runs_skipped_after_crashes'] = stats.get('skipped_after_crashes', 0)
-    ctx.cov['cases_with_self_touching_open_paths'] = stats.get('self_touch', 0)
+    ctx.cov['outside_quantifier'] = dict(
+        what=('cases whose open polylines are not in general position among themselves (fold back, first = last, collinear overlap): not instances '
+              'of the property; evaluated like the others, disagreements with the specification are only recorded here (coordinates < 2^53)'),
+        cases=stats.get('outside_cases', 0), rule_runs=stats.get('outside_runs', 0), disagreements=stats.get('outside_disagree', {}),
+        example=stats.get('outside_example'))
     ctx.cov['distinct_nontrivial'] = len(stats.get('nontrivial', ()))
     for ci in stats.get('accepted', []):
         c = cases[ci]
@@ -439,20 +464,26 @@ def run(ctx):
                 pass
             ctx.log('shrunk %s' % key)
         ctx.violation(key, f['what'] + ('  [%d failing (case, rules) with this key]' % len(fs)), replay=f['replay'])
-    ctx.cov['rule'] = ('closed subject/clip sets from gen/polys.py (8 families) plus multiply-wound sets, with 1-3 open polylines of 2-8 vertices from 10 '
-                       'families (random walks, chords through everything, inside->outside, nearly horizontal zigzags, exactly axis-parallel, vertices on '
-                       'closed-vertex scanlines, 180-degree spikes, first=last loops, vertices 4-6 units from closed edges, two-point), accepted by the extracted '
-                       'Coq predicate general_position_open and scaled/translated exactly into 7 coordinate regimes up to 2^61; each case runs under all '
-                       '16 clip type x fill rule combinations, random PreserveCollinear/ReverseSolution, paths and polytree execution, with and without the '
-                       'open subjects, default and CLIPPER2_HI_PRECISION builds; non-trivial = distinct (case, clip type, fill rule) whose specification has '
-                       'at least one cut and one kept run')
-    ctx.assumptions += ['general position as decided by model/OpenClipSpec.v general_position_open (closed paths: base/GenPos.v; open vertices and closed '
-                        'vertices >= 3 units from the edges of the other kind; every open x closed crossing >= 3 units from every other closed edge)',
+    ctx.cov['rule'] = ('closed subject/clip sets from gen/polys.py (8 families) plus multiply-wound sets, with 1-3 open polylines of 2-8 vertices from 8 '
+                       'families (random walks incl. proper self-crossings, chords through everything, inside->outside, nearly horizontal zigzags, exactly '
+                       'axis-parallel, vertices on closed-vertex scanlines, flat local extrema made of several horizontal segments, vertices 4-6 units from '
+                       'closed edges, two-point), accepted by the extracted Coq predicate general_position_C05 and scaled/translated exactly into 7 '
+                       'coordinate regimes up to 2^61; 1 case in 8 instead gets a polyline from 3 degenerate families (180-degree spikes, horizontal spikes, '
+                       'first=last loops) and is evaluated outside the hypothesis (coverage.outside_quantifier); each case runs under all 16 clip type x '
+                       'fill rule combinations, random PreserveCollinear/ReverseSolution, paths and polytree execution, with and without the open subjects, '
+                       'default and CLIPPER2_HI_PRECISION builds; non-trivial = distinct (case, clip type, fill rule) whose specification has at least one '
+                       'cut and one kept run')
+    ctx.assumptions += ['general position as decided by model/OpenClipSpec.v general_position_C05: base/GenPos.v for the closed paths; open vertices and '
+                        'closed vertices >= 3 units from the edges of the other kind; open vertices >= 3 units from every open segment they are not an end '
+                        'of; every proper crossing of two input edges of any kind >= 3 units from every third input edge',
                         'constancy of the winding number inside a piece is not proved; it is checked at the 1/4, 1/2 and 3/4 points of every piece of every case',
                         'cut = boundary between a kept and a dropped run in the interior of a subject segment; lengths are compared through exact integer '
                         'enclosures (2^-32 units), no floating point is used by the oracle',
                         '(d) is decided on regions: closed solutions whose canonical paths differ are compared by winding number at sample points farther than '
-                        '2+|coord|*2^-42 from all their edges (sampling, not a theorem)']
+                        '2+|coord|*2^-42 from all their edges (sampling, not a theorem)',
+                        'the key of a failure on coordinates >= 2^53 (open.cut-inexact@beyond-2^53 or <key>@beyond-2^53) is decided with the first-order '
+                        'forward error bound of the binary64 crossing formula (gen/openpaths.py rounding_bound, python, exact rationals); the bound is an '
+                        'analysis on paper, not a theorem, and only selects the key - the failure is a violation either way']
     if broken and not ctx.violations:
         ctx.violation('proof-break:Properties_C05', 'Properties_C05 no longer checks: %s' % '; '.join(pr['failed'])[:800],
                       replay=dict(failed=pr['failed'], log=pr['log'][-2000:]), nofail=True)
@@ -472,6 +503,9 @@ def replay(ctx, path):
     fails, stats = evaluate(ctx, exes, oracle, [case], combos_of=lambda c: combos)
     ctx.cov['distinct_nontrivial'] = len(stats.get('nontrivial', ()))
     if stats.get('gp_rejected'):
-        print('input is not in general position (general_position_open = false)')
+        print('input is not in general position (general_position_open = false): not an instance of the property')
+    if stats.get('outside_cases'):
+        print('the open polylines are not in general position among themselves (open_general = false): not an instance of the property; '
+              'disagreements with the specification under the given rules: %s' % (stats['outside_disagree'] or 'none'))
     for f in primary(fails):
         ctx.violation(f['key'], f['what'], replay=f['replay'])
